@@ -61,6 +61,7 @@ fn init_process() {
             ("Will resolve the conflitct in the key", "conflict_resolution"),
             ("send_message::try_send", "client_channel_full"),
             ("replicate_if_some sender.send Error", "link_channel_error"),
+            ("process_message Error", "tcp_write_failed"),
             // debug-level lines (only seen by workers that run with NUNSIM_LOG=debug): inside the catch-up
             // computation, after a database's map was copied / per oplog record
             ("Done the the db", "full_sync_db_done"),
